@@ -15,6 +15,7 @@ DECIDES = ('the unweighted-points / weights caches of the three rational classes
            'every defining property from the same-direction property of the source and construct the result with the knot vector normalisation setting of the source (CV1, CV2); no method stores a structure that may alias one of its arguments into the control point array or a cached view, so the views cannot drift apart through the caller\'s own lists (ES1, may-alias analysis); a cached view is read only inside its own lazily filling getter, every other method goes through the property (IV8); the unit-weight test of nurbs_to_bspline is two-sided (TOL1) and a single non-unit weight refuses the conversion (UW1). the file variants of the 2-D converters apply the converter they are named after and save the array with matching sizes (FH1, LY3f).')
 NOT_DECIDED = 'invariance of evaluated points under a common positive weight factor; numerical round-trip to rounding; evaluation equality after type conversion (needs C01).'
 TECHNIQUE = 'static typestate dataflow + per-point map extraction in polynomial normal form + axis-tag rules + may-alias escape analysis'
+DECIDES += (" [ABSTRACT INTERPRETATION, exact] CV3: every converter of geomdl.compatibility and its three file variants, interpreted on a non-square net of monomial cells, returns cell by cell the documented result (x*w / x/w / w kept; [u][v] <-> [v][u]) and saves the array of its own converter with that array's row / column counts; PP2: GridWeighted.grid multiplies point [i][j] by weight j + i * (points per row) (FH1, LY3f, PP1 only corroborate).")
 
 CONVERTERS = {
     'compatibility.generate_ctrlptsw': ('mul', 'own-slot'),
